@@ -456,7 +456,12 @@ class LiveMedia(MediaRequestBase):
                 seg_num, first, last)
             raise err
 
-        if seg_num < first or seg_num > last:
+        check_num = seg_num
+        if seg_time is not None and mode == 'live':
+            # the segment number derived from a live $Time$ request is zero
+            # based, first and last include the Representation's start_number
+            check_num += representation.start_number
+        if check_num < first or check_num > last:
             logging.info(
                 '%s: Request for fragment %d that is not available (%d -> %d)',
                 timing.now, seg_num, first, last)
